@@ -100,7 +100,7 @@ def class_objects(m, cls, args_base='', args_sub=''):
 def cache_rules(chk, m, rid):
     R = chk.rule(rid, 'per-class memo tables (Macro.arguments, Macro.locals) interpreted on two class objects Base <- Sub, the base class '
                  'used first: the subclass gets its own table (not the object computed for the base class), stored in its own class '
-                 'dictionary; a second call gives the same object again; the table of the base class is left as it was', 3)
+                 'dictionary; a second call gives the same object again; the table of the base class is left as it was', 4)
     Macro = m.cls('plasTeX', 'Macro')
     entries = []
     for name in ('arguments', 'locals'):
@@ -131,17 +131,20 @@ def cache_rules(chk, m, rid):
         return 'names %s' % sorted(v) if isinstance(v, dict) else repr(v)
     for name, fn in entries:
         key = '@' + name
-        for label, args_base, args_sub in (('both classes without arguments', '', ''),) + ((('the subclass inherits the argument string', '', None),) if name == 'arguments' else ()):
+        for label, args_base, args_sub in (('both classes without arguments', '', ''),) + ((('the subclass inherits the argument string', '', None),
+                                                                                             ('both classes with the same argument string', 'title', 'title'))
+                                                                                            if name == 'arguments' else ()):
             base, sub, ib, isub = class_objects(m, Macro, args_base, args_sub)
             keep = {'__base': base, '__sub': sub, '__ib': ib, '__isub': isub}
             inst = 'Macro.%s: %s' % (name, label)
             try:
+                shared = lambda st: {k: v for k, v in st.env.items() if k.startswith('__cls:')}      # (class-level tables live on between the calls)
                 k1, s1, v1 = run(fn, ib, keep)
                 ib, isub, base, sub = s1.env['__ib'], s1.env['__isub'], s1.env['__base'], s1.env['__sub']
-                keep = {'__base': base, '__sub': sub, '__ib': ib, '__isub': isub, '__v1': v1}
+                keep = dict(shared(s1), **{'__base': base, '__sub': sub, '__ib': ib, '__isub': isub, '__v1': v1})
                 k2, s2, v2 = run(fn, isub, keep)
                 ib, isub, base, sub, v1 = (s2.env[x] for x in ('__ib', '__isub', '__base', '__sub', '__v1'))
-                keep = {'__base': base, '__sub': sub, '__ib': ib, '__isub': isub, '__v1': v1, '__v2': v2}
+                keep = dict(shared(s2), **{'__base': base, '__sub': sub, '__ib': ib, '__isub': isub, '__v1': v1, '__v2': v2})
                 k3, s3, v3 = run(fn, isub, keep)
                 base, sub, v1, v2 = (s3.env[x] for x in ('__base', '__sub', '__v1', '__v2'))
             except Undetermined as e:
@@ -159,7 +162,8 @@ def cache_rules(chk, m, rid):
                      describe(name, v1), describe(name, v2))
             want = ('return', 'return', 'return', 'the subclass has its own table', 'stored in the own class dictionary', 'base class table kept',
                     'second call gives the same table',
-                    'a list of 0' if name == 'arguments' else "names ['X']", 'a list of 0' if name == 'arguments' else "names ['X', 'Y']")
+                    ('a list of %d' % (1 if args_base else 0)) if name == 'arguments' else "names ['X']",
+                    ('a list of %d' % (1 if args_sub else 0)) if name == 'arguments' else "names ['X', 'Y']")
             chk.decide(R, inst, {facts}, {want},
                        'Macro.%s on an instance of Base, then twice on an instance of Sub(Base): %s; expected %s - attribute lookup follows the '
                        'class hierarchy, so a class whose base class was used earlier in the process must not get the table computed for the '
